@@ -24,7 +24,7 @@ out = []
 seen = set()
 catalogue = {}
 budget = {("c01", "x"): 0, ("c04", "x"): 0, ("c07", "x"): 0, ("c02", "x"): 0, ("c03", "x"): 0, ("c16", "x"): 0, ("c17", "x"): 0, ("c18", "x"): 0}
-XMAX = {"c01": 2, "c04": 3, "c07": 3}
+XMAX = {"c01": 2, "c04": 2, "c07": 3}
 
 
 def components(n, code):
@@ -137,8 +137,8 @@ for g, q in ((34, 2), (42, 2), (290, 1), (137, 0)):
     h("c03", "t", "gr", "ds", "def", 3, g, [q], pres="du")
 
 # ------------------------------------------------------------------ C04 certificates
-# three components: the certificate must be completed on every other component (first, so that it is within the x budget)
-h("c04", "q", "co", "dc", "aux", 3, 0, [0])
+# (three isolated arguments, DC-CO with certificate - the certificate must be completed on every other component - was
+# measured out of reach: CBMC out of memory above 24 GB on its own, 16 cores / 62 GB; not generated)
 for g, q in ((0, 0), (2, 0), (6, 1), (14, 0)):
     h("c04", "q", "st", "dc", "def", 2, g, [q])
 for g, q in ((6, 0), (10, 0), (2, 1)):
@@ -147,7 +147,6 @@ for g, q, e, p in ((6, 0, "aux", "pl"), (14, 0, "aux", "s1"), (0, 1, "exp", "pl"
     h("c04", "q", "co", "dc", e, 2, g, [q], pres=p)
 h("c04", "q", "gr", "ds", "def", 2, 2, [1])
 h("c04", "q", "gr", "dc", "def", 2, 2, [0], pres="s2")
-h("c04", "q", "co", "dc", "aux", 3, 0, [0])
 h("c04", "q", "st", "dc", "def", 3, 8, [2])
 for g in (0, 2, 6, 14, 8):
     for q in (0, 1):
